@@ -888,6 +888,19 @@ impl Reader for ValReader {
                 if n % 3 == 1 {
                     b.extend_from_slice(&[0xEF, 0x12]);
                 }
+                // … and the same value built bit by bit with the public `BitVec` API, growing from half its
+                // length (`with_len`, `set_bit` / `reset_bit`): the length is that of the highest bit touched
+                if n % 3 == 2 {
+                    let mut v = asn1rs::descriptor::bitstring::BitVec::with_len(n / 2);
+                    for i in 0..n {
+                        if b[(i / 8) as usize] & (0x80 >> (i % 8)) != 0 {
+                            v.set_bit(i);
+                        } else {
+                            v.reset_bit(i);
+                        }
+                    }
+                    return Ok(v.split());
+                }
                 Ok((b, n))
             }
             v => Err(format!("expected bits, got {:?}", v)),
